@@ -320,6 +320,11 @@ func c19Tracks(c *fw.Ctx, idx int) {
 		start = c19Epoch0
 	}
 	steps := []int64{0, 1, 1, 5, 60, 3600, 43200, 86400, 90000, 200000}
+	if r.Chance(1, 4) {
+		// steps of about a day (the time of day goes slightly backwards or stays
+		// the same while the date advances) and of several days
+		steps = []int64{86399, 86400, 86401, 86340, 86341, 86399 - 58, 86400 - 3600, 86400 + 59, 2*86400 - 1, 2 * 86400, 3*86400 - 30, 1}
+	}
 	tt := start
 	var fixes []fix
 	crossings := map[string]bool{}
